@@ -269,9 +269,10 @@ def r4(ctx: Ctx) -> None:
     if len(c) == 1 and c[0][0] == "for" and c[0][2] == ("c", ("g", "range"), (n,), ()):
         i = c[0][1]
         inner = c[0][3]
-        if len(inner) == 1 and inner[0][0] == "for" and inner[0][2] == ("c", ("g", "range"), ((to_poly(i) + Poly.const(1)).to_s(), n), ()):
-            j = inner[0][1]
-            want = ("expr", ("c", ("a", S_, "add_clause"), (("list", ((-to_poly(("s", lst, i))).to_s(), (-to_poly(("s", lst, j))).to_s())),), ()))
+        # inner loop over the elements after position i (the index spelling 'for j in range(i + 1, n): ... lst[j]' has this form too)
+        if len(inner) == 1 and inner[0][0] == "for" and inner[0][2] == ("s", lst, ("slice", (to_poly(i) + Poly.const(1)).to_s(), K_NONE, K_NONE)):
+            lj = inner[0][1]
+            want = ("expr", ("c", ("a", S_, "add_clause"), (("list", ((-to_poly(("s", lst, i))).to_s(), (-to_poly(lj)).to_s())),), ()))
             ok = inner[0][3] == (want,)
     ctx.site(f.where, "pairs i < j over the whole list, both literals negated")
     if not ok:
